@@ -52,6 +52,14 @@ def expect_labels(tier):
             "double_subscribe_once", "unsubscribe_stops", "raiser_does_not_starve", "later_frames_still_notify"]
 
 
+class _Holder:
+    def __init__(self, log):
+        self.log = log
+
+    async def on_update(self, ident):
+        self.log.append(("bound", ident))
+
+
 class Rec:
     def __init__(self, name, log, raises=False):
         self.name, self.log, self.raises = name, log, raises
@@ -164,6 +172,9 @@ def run(ctx, p):
             ac0.subscribe(probe_gen)
         ac1.subscribe(other_ac)
         ac1.subscribe_ac_state(other_ac)
+        # subscribers given as bound methods (the bound-method object itself is not kept by the application)
+        holder = _Holder(log)
+        {"ac": ac0.subscribe, "timer": ac0.subscribe, "error": ac0.subscribe, "error_silent": ac0.subscribe, "zone": z0.subscribe, "version": at.subscribe}[kind](holder.on_update)
         # the same callback registered in both roles and withdrawn from one of them: the two registrations are independent
         dual_state, dual_gen = Rec("dual_state", log), Rec("dual_gen", log)
         if kind in ("ac", "timer", "zone"):
@@ -269,6 +280,7 @@ def run(ctx, p):
             ctx.check(ok_n, "change_notifies" if expect_probe else "unsubscribe_stops", detail=dict(detail, calls=calls))
             ctx.check(names.count(main) <= (2 if kind == "error" else 1), "double_subscribe_once", detail=dict(detail, calls=calls))
             ctx.check(all(c[1] == (tz if kind == "zone" else ident) for c in calls if c[0] in (main, "raiser")), "right_identifier", detail=dict(detail, calls=calls))
+            ctx.check("bound" in names, "change_notifies", detail=dict(detail, calls=calls, why="a subscriber given as a bound method was not called"))
             if kind in ("ac", "timer", "error", "error_silent"):
                 exp_state = 0 if state_arr == "unsub" else 1
                 ok_state = (names.count("ac_state") == exp_state) if kind in ("ac", "timer") else ("ac_state" in names)
